@@ -206,6 +206,24 @@ pub trait Scenario: Sync {
 	fn max_steps(&self) -> usize {
 		400
 	}
+	/// the scenario uses kernel sockets (loopback TCP): the runtime gets an I/O driver
+	fn needs_io(&self) -> bool {
+		false
+	}
+	/// kernel readiness is outside the controller: a replay divergence is recorded as inconclusive, not as a machinery error
+	fn tolerate_divergence(&self) -> bool {
+		false
+	}
+}
+
+pub fn new_runtime_io(io: bool) -> tokio::runtime::Runtime {
+	let mut b = tokio::runtime::Builder::new_current_thread();
+	if io {
+		b.enable_all();
+	} else {
+		b.enable_time();
+	}
+	b.start_paused(true).rng_seed(tokio::runtime::RngSeed::from_bytes(b"verif-seed")).build().expect("runtime")
 }
 
 pub fn new_runtime() -> tokio::runtime::Runtime {
@@ -227,15 +245,30 @@ pub fn run_one<S: Scenario>(s: &S, prefix: &[usize], want_labels: bool) -> Exec<
 		c.panics.clear();
 		c.mask = s.mask();
 	});
-	let rt = new_runtime();
+	let rt = new_runtime_io(s.needs_io());
 	let mut decisions = Vec::new();
 	let mut labels = Vec::new();
 	let max_steps = s.max_steps();
 	let (status, verdict, trace, panics) = rt.block_on(async {
 		let st = s.setup();
 		let mut idle = 0;
+		let io_mode = s.needs_io();
 		let status = loop {
 			tokio::time::sleep(Duration::from_millis(1)).await;
+			if io_mode {
+				// kernel sockets: readiness is delivered when the runtime polls the I/O driver, which takes a few parks;
+				// quiescence = the runtime polled nothing but this driver task for several consecutive rounds
+				let m = tokio::runtime::Handle::current().metrics();
+				let mut calm = 0;
+				let mut rounds = 0;
+				while calm < 4 && rounds < 400 {
+					let before = m.worker_poll_count(0);
+					tokio::time::sleep(Duration::from_millis(1)).await;
+					let after = m.worker_poll_count(0);
+					if after.saturating_sub(before) <= 1 { calm += 1 } else { calm = 0 }
+					rounds += 1;
+				}
+			}
 			let n = CTL.with(|c| c.borrow().parked.iter().filter(|p| !p.released).count());
 			if n == 0 {
 				idle += 1;
@@ -438,7 +471,11 @@ pub fn explore<S: Scenario>(s: &S, cfg: &ExploreCfg, rep: &Reporter) -> ExploreS
 								let full: Vec<usize> = ex.decisions.iter().map(|d| d.chosen).collect();
 								let ex2 = run_one(s, &full, false);
 								rechecked.fetch_add(1, Ordering::Relaxed);
-								if ex2.decisions != ex.decisions || ex2.trace != ex.trace || ex2.obs.outcome != ex.obs.outcome {
+								if (ex2.decisions != ex.decisions || ex2.trace != ex.trace || ex2.obs.outcome != ex.obs.outcome) && s.tolerate_divergence() {
+									stable = false;
+									divergences.fetch_add(1, Ordering::Relaxed);
+									rep.extra_add("inconclusive_schedules_kernel_timing", 1);
+								} else if ex2.decisions != ex.decisions || ex2.trace != ex.trace || ex2.obs.outcome != ex.obs.outcome {
 									stable = false;
 									divergences.fetch_add(1, Ordering::Relaxed);
 									rep.machinery_error(format!(
